@@ -20,6 +20,6 @@ CONSTANTS
   Modes <- MCModes
   MaxSteps = 6
   ModelDeviations = TRUE
-  Follow <- MCFollowD1D2
+  Follow <- MCFollowNone
   EmitAll = FALSE
 INVARIANTS TypeOK AllTheorems
